@@ -23,6 +23,8 @@ Discrimination rules as in tools/py2lean_fsm.py: `==` / `!=` against a string li
 `or` / `and` only over bools, every operator kept, chained assignment evaluated once and assigned left to right.
 """
 import ast
+import builtins
+import copy
 
 H = None
 
@@ -36,6 +38,54 @@ def lit(s):
 
 
 # ----------------------------------------------------------------------------- small value translations
+
+def strip_doc(body):
+    return [s for s in body
+            if not (isinstance(s, ast.Expr) and isinstance(s.value, ast.Constant) and isinstance(s.value.value, str))]
+
+
+def inline_locals(body, params, pure):
+    """`x = <pure expression>` statements before the last statement are substituted into what follows (every local is
+    assigned once, before its use, does not hide a parameter and is not assigned in the last statement); returns the
+    last statement"""
+    env = {}
+
+    class Sub(ast.NodeTransformer):
+        def visit_Name(self, node):
+            if isinstance(node.ctx, ast.Load) and node.id in env:
+                return copy.deepcopy(env[node.id])
+            if not isinstance(node.ctx, ast.Load) and node.id in env:
+                raise U(f'local {node.id} assigned again')
+            return node
+
+    for st in body[:-1]:
+        if not (isinstance(st, ast.Assign) and len(st.targets) == 1 and isinstance(st.targets[0], ast.Name)):
+            raise U('statement before the last one: ' + ast.unparse(st)[:60])
+        n = st.targets[0].id
+        if n in env or n in params:
+            raise U(f'local {n} assigned twice or hides a parameter')
+        v = Sub().visit(copy.deepcopy(st.value))
+        if not pure(v):
+            raise U(f'local {n} = {ast.unparse(v)[:40]}: not a plain value')
+        env[n] = v
+    if not body:
+        raise U('empty body')
+    return ast.fix_missing_locations(Sub().visit(copy.deepcopy(body[-1])))
+
+
+def pure_attr(v):
+    """constants, names, attribute chains, and and/or/not/comparisons of them: no effect, cannot raise here"""
+    if isinstance(v, (ast.Constant, ast.Name)):
+        return True
+    if isinstance(v, ast.Attribute):
+        return pure_attr(v.value)
+    if isinstance(v, ast.BoolOp):
+        return all(pure_attr(x) for x in v.values)
+    if isinstance(v, ast.UnaryOp) and isinstance(v.op, ast.Not):
+        return pure_attr(v.operand)
+    if isinstance(v, ast.Compare):
+        return pure_attr(v.left) and all(pure_attr(x) for x in v.comparators)
+    return False
 
 class TrVal:
     """bool-valued one-liners over `self._restartable` (Bool) and `self._state` (Option String)"""
@@ -81,11 +131,10 @@ class TrVal:
         a = fn.args
         if [x.arg for x in a.args] != ['self'] or a.vararg or a.kwarg or a.kwonlyargs or a.posonlyargs:
             raise U('signature')
-        body = [s for s in fn.body
-                if not (isinstance(s, ast.Expr) and isinstance(s.value, ast.Constant) and isinstance(s.value.value, str))]
-        if len(body) != 1 or not isinstance(body[0], ast.Return) or body[0].value is None:
-            raise U('body is not a single return')
-        t, ty = self.expr(body[0].value)
+        last = inline_locals(strip_doc(fn.body), {'self'}, pure_attr)
+        if not isinstance(last, ast.Return) or last.value is None:
+            raise U('body does not end with return <value>')
+        t, ty = self.expr(last.value)
         if ty != rtype:
             raise U(f'returns {ty}')
         lt = {'B': 'Bool', 'SQ': 'Option String'}[rtype]
@@ -223,7 +272,7 @@ def translate_timer_init(fn):
 
 # ----------------------------------------------------------------------------- class FSM
 
-def translate_fsm_class(cls_node):
+def translate_fsm_class(cls_node, module_names=frozenset()):
     """the simple statements of the class body: attributes with defaults, declared tables (bare annotations)"""
     defaults, declared = [], []
     for s in cls_node.body:
@@ -236,18 +285,32 @@ def translate_fsm_class(cls_node):
                 declared.append((s.target.id, ast.unparse(s.annotation)))
                 continue
             v = s.value
-            if isinstance(v, (ast.Tuple, ast.List)) and not v.elts:
-                defaults.append((s.target.id, 'emptySeq'))
-                continue
-            if isinstance(v, ast.Dict) and not v.keys:
-                defaults.append((s.target.id, 'emptyDict'))
+            call0 = (ast.unparse(v.func) if isinstance(v, ast.Call) and isinstance(v.func, ast.Name)
+                     and not v.args and not v.keywords else None)     # tuple() / list() / dict(): the builtins
+            if call0 is not None and call0 in ('tuple', 'list', 'dict') and hasattr(builtins, call0) \
+                    and call0 not in module_names:
+                kind = {'tuple': 'emptyTuple', 'list': 'emptyList', 'dict': 'emptyDict'}[call0]
+            elif isinstance(v, ast.Tuple) and not v.elts:
+                kind = 'emptyTuple'
+            elif isinstance(v, ast.List) and not v.elts:
+                kind = 'emptyList'
+            elif isinstance(v, ast.Dict) and not v.keys:
+                kind = 'emptyDict'
+            else:
+                kind = None
+            if kind is not None:
+                defaults.append((s.target.id, kind))
                 continue
             raise U(f'default of {s.target.id}: {ast.unparse(v)[:40]}')
         raise U('statement in the class body: ' + ast.unparse(s)[:60])
-    d = ', '.join(f'({lit(n)}, ClassDefault.{k})' for n, k in defaults)
-    t = ', '.join(f'({lit(n)}, {lit(a)})' for n, a in declared)
+    d = ', '.join(f'({lit(n)}, ClassDefault.{k})' for n, k in sorted(defaults))     # constants: order immaterial
+    if len({n for n, _ in declared}) != len(declared) or len({n for n, _ in defaults}) != len(defaults):
+        raise U('an attribute of the class body is defined twice')
+    # a bare annotation has no effect at run time: the order of the declarations is immaterial, they are sorted
+    t = ', '.join(f'({lit(n)}, {lit(a)})' for n, a in sorted(declared))
     return (
-        'inductive ClassDefault where\n  | emptySeq      -- `()` / `[]`\n  | emptyDict     -- `{}`\n'
+        'inductive ClassDefault where\n  | emptyTuple    -- `()` / `tuple()`\n  | emptyList     -- `[]` / `list()`\n'
+        '  | emptyDict     -- `{}` / `dict()`\n'
         '  deriving DecidableEq, Repr\n\n'
         '/-- translated from the body of `class FSM`: the class attributes a subclass is expected to define, with the\n'
         '    defaults they have when it does not -/\n'
@@ -267,7 +330,7 @@ def translate_init_subclass(fn):
     body = [s for s in fn.body
             if not (isinstance(s, ast.Expr) and isinstance(s.value, ast.Constant) and isinstance(s.value.value, str))]
 
-    def acts(stmts, ind):
+    def acts(stmts, ind, caught=None):
         pad = '  ' * ind
         if not stmts:
             return pad + '[]'
@@ -280,9 +343,13 @@ def translate_init_subclass(fn):
                 return f'{pad}SubclassAct.buildTables ::\n' + acts(rest, ind)
             if H.node_path(s.value.func) == 'add_note' and len(s.value.args) == 2 and not s.value.keywords \
                     and isinstance(s.value.args[0], ast.Name):
-                return f'{pad}SubclassAct.addNote ::\n' + acts(rest, ind)
+                if caught is None or s.value.args[0].id != caught:
+                    raise U('add_note outside the handler or on another object')
+                return f'{pad}SubclassAct.addNote ::\n' + acts(rest, ind, caught)
             raise U('call ' + txt[:60])
-        if isinstance(s, ast.Raise) and s.exc is None and s.cause is None:
+        if isinstance(s, ast.Raise) and s.cause is None and caught is not None and (
+                s.exc is None or (isinstance(s.exc, ast.Name) and s.exc.id == caught)):
+            # bare `raise` / `raise err` with the name of the handler: the error caught goes on
             return f'{pad}[SubclassAct.reraise]'
         if (isinstance(s, ast.Try) and not s.finalbody and not s.orelse and len(s.handlers) == 1
                 and H.node_path(s.handlers[0].type) == 'Exception' and len(s.body) == 1
@@ -290,11 +357,10 @@ def translate_init_subclass(fn):
             h = s.handlers[0]
             if h.name is None:
                 raise U('handler without a name')
-            for x in h.body:
-                if isinstance(x, ast.Expr) and isinstance(x.value, ast.Call) and H.node_path(x.value.func) == 'add_note':
-                    if not (isinstance(x.value.args[0], ast.Name) and x.value.args[0].id == h.name):
-                        raise U('add_note on another object')
-            return (f'{pad}SubclassAct.buildTables ::\n{pad}if buildRaises then\n' + acts(list(h.body), ind + 1)
+            for x in ast.walk(ast.Module(body=list(h.body), type_ignores=[])):
+                if isinstance(x, ast.Name) and x.id == h.name and not isinstance(x.ctx, ast.Load):
+                    raise U('the name of the handler is assigned')
+            return (f'{pad}SubclassAct.buildTables ::\n{pad}if buildRaises then\n' + acts(list(h.body), ind + 1, h.name)
                     + f'\n{pad}else\n' + acts(rest, ind + 1))
         raise U('statement ' + ast.unparse(s)[:60])
 
@@ -303,7 +369,7 @@ def translate_init_subclass(fn):
         '  | superInitSubclass     -- `super().__init_subclass__(*args, **kwargs)`: SBlock builds `_ct_handlers`\n'
         '  | buildTables           -- `cls._build_tables()`\n'
         '  | addNote               -- `add_note(err, …)` on the error caught\n'
-        '  | reraise               -- bare `raise`: the same error goes on\n'
+        '  | reraise               -- `raise` / `raise err`: the error caught goes on\n'
         '  deriving DecidableEq, Repr\n\n'
         '/-- translated from `fsm.FSM.__init_subclass__`: its actions in program order (`buildRaises`: `_build_tables`\n'
         '    raises an `Exception`) -/\n'
@@ -314,9 +380,11 @@ def translate_init_from_value(fn):
     a = fn.args
     if [x.arg for x in a.args] != ['self', 'value'] or a.vararg or a.kwarg or a.kwonlyargs or fn.decorator_list:
         raise U('signature')
-    body = [s for s in fn.body
-            if not (isinstance(s, ast.Expr) and isinstance(s.value, ast.Constant) and isinstance(s.value.value, str))]
-    if len(body) == 1 and isinstance(body[0], ast.Expr) and ast.unparse(body[0].value) == 'self.event(Goto(value))':
+    def pure(v):      # Goto(…) only stores its argument
+        return pure_attr(v) or (isinstance(v, ast.Call) and isinstance(v.func, ast.Name) and v.func.id == 'Goto'
+                                and len(v.args) == 1 and not v.keywords and pure_attr(v.args[0]))
+    last = inline_locals(strip_doc(fn.body), {'self', 'value'}, pure)
+    if isinstance(last, ast.Expr) and ast.unparse(last.value) == 'self.event(Goto(value))':
         return ('def fsmInitFromValue {E Q D : Type} (goto : Q → E) (noData : D) (value : Q) : E × D :=\n'
                 '  (goto value, noData)')
     raise U('body of init_from_value')
@@ -327,20 +395,25 @@ def check_targets(fsm_mod, fsms_mod):
     from edzed import utils
     from edzed.utils import timeunits
     T = fsms_mod.Timer
+    missing = set()       # methods that are not defined where the tie expects them: only their definitions are omitted
     for n in ('__init__', 'cond_start', 'cond_stop', 'calc_output'):
         if n not in vars(T):
-            raise U(f'Timer.{n} is not defined in class Timer')
+            missing.add(f'Timer.{n}')
     if T.__mro__[1] is not fsm_mod.FSM:
         raise U('Timer is not a direct subclass of FSM')
     if fsms_mod.utils is not utils or utils.time_period is not timeunits.time_period or fsms_mod.fsm is not fsm_mod:
         raise U('module globals of fsms.py')
     for n in ('calc_output', 'init_from_value', 'state', '__init_subclass__'):
         if n not in vars(fsm_mod.FSM):
-            raise U(f'FSM.{n} is not defined in class FSM')
-    if not isinstance(vars(fsm_mod.FSM)['state'], property):
+            missing.add(f'FSM.{n}')
+    if 'FSM.state' not in missing and not isinstance(vars(fsm_mod.FSM)['state'], property):
         raise U('FSM.state is not a property')
+    if vars(fsm_mod).get('Goto') is not edzed.Goto or edzed.Goto.__module__ != fsm_mod.__name__ \
+            or vars(fsm_mod).get('add_note') is not edzed.exceptions.add_note:
+        raise U('module globals of fsm.py (Goto, add_note)')
     if edzed.Timer is not T:
         raise U('edzed.Timer')
+    return missing
 
 
 def main_timerblk(outfile, helpers):
@@ -352,16 +425,20 @@ def main_timerblk(outfile, helpers):
     from edzed.blocklib import fsms
     L = ['/- GENERATED by tools/py2lean_timerblk.py from the Python source of edzed (blocklib/fsms.py: Timer; '
          'fsm.py: class FSM) -- do not edit -/', '', 'namespace Edzed.Gen.TrB', '']
+    missing = set()
     try:
-        check_targets(fsm, fsms)
+        missing = check_targets(fsm, fsms)
         err0 = None
     except Exception as err:
         err0 = err
 
-    def guarded(f):
+    def guarded(f, doc):
         def g(_t):
             if err0 is not None:
                 raise err0
+            for m in missing:
+                if doc.split(' ')[0].endswith(m):
+                    raise U(f'{m} is not defined in the class itself')
             return f()
         return g
 
@@ -382,11 +459,11 @@ def main_timerblk(outfile, helpers):
         ('fsmInitFromValue', 'fsm.FSM.init_from_value',
          lambda: translate_init_from_value(H.fn_ast(fsm.FSM.init_from_value))),
         ('fsmClassDefaults', 'class fsm.FSM (body)',
-         lambda: translate_fsm_class(ast.parse(textwrap.dedent(inspect.getsource(fsm.FSM))).body[0])),
+         lambda: translate_fsm_class(ast.parse(textwrap.dedent(inspect.getsource(fsm.FSM))).body[0], frozenset(vars(fsm)))),
         ('initSubclassActs', 'fsm.FSM.__init_subclass__',
          lambda: translate_init_subclass(H.fn_ast(vars(fsm.FSM)['__init_subclass__'].__func__))),
     ]
     for name, doc, f in items:
-        H.emit(L, dict(name=name, doc=doc), guarded(f), '')
+        H.emit(L, dict(name=name, doc=doc), guarded(f, doc), '')
     L.append('end Edzed.Gen.TrB')
     H.write_if_changed(outfile, '\n'.join(L) + '\n')
